@@ -10,7 +10,7 @@ Trace == ndJsonDeserialize("trace.ndjson")
 VARIABLES l
 tvars == <<vars, l>>
 Line == Trace[l]
-Strip(a) == [x \in DOMAIN a \ {"w"} |-> a[x]]
+Strip(a) == [x \in DOMAIN a \ {"w", "pc"} |-> a[x]]
 Seen(o) == [recs |-> o.recs, err |-> o.err, badseq |-> o.badseq]
 
 No(q) == [ok |-> FALSE, q |-> q]
@@ -37,19 +37,20 @@ Explain(q, a, recs) ==
          ELSE IF Len(recs) = 1 /\ recs[1] \in Ready(q) THEN Yes(Iter(q, recs[1]))
          ELSE No(Iter(q, CHOOSE x \in Ready(q) : TRUE))
     [] a.a = "expire" ->
-         LET e == ExpireQ(q) IN
-         IF q.pc = "sel" /\ q.stalled /\ ~q.fired
-         THEN (IF recs = <<>> THEN Yes([e[1] EXCEPT !.pc = "send", !.pend = <<DoneRec>>]) ELSE No(e[1]))
-         ELSE IF recs = e[2] THEN Yes(e[1]) ELSE No(e[1])
+         LET q1 == [q EXCEPT !.fired = TRUE, !.closed = TRUE] IN
+         IF q.fired \/ q.pc = "none" THEN (IF recs = <<>> THEN Yes(q) ELSE No(q))
+         ELSE IF q.pc = "sel" /\ ~q.stalled
+         THEN (IF Len(recs) = 1 /\ recs[1] \in Ready(q1) THEN Yes(Iter(q1, recs[1])) ELSE No(Iter(q1, DoneRec)))
+         ELSE IF recs = <<>> THEN Yes(q1) ELSE No(q1)
     [] a.a = "stall"   -> IF recs = <<>> THEN Yes([q EXCEPT !.stalled = TRUE]) ELSE No([q EXCEPT !.stalled = TRUE])
     [] a.a = "unstall" -> LET u == UnstallQ(q) IN IF recs = u[2] THEN Yes(u[1]) ELSE No(u[1])
     [] a.a = "end" ->
          LET u == UnstallQ(q)
-             e == IF u[1].pc = "sel" /\ ~u[1].fired THEN ExpireQ(u[1]) ELSE ExpireQ(u[1])
-             pre == u[2] \o e[2]
+             e == ExpireQ(u[1])
+             pre == u[2]
          IN  IF Len(recs) >= Len(pre) /\ SubSeq(recs, 1, Len(pre)) = pre
-             THEN Replay(e[1], SubSeq(recs, Len(pre) + 1, Len(recs)))
-             ELSE No(e[1])
+             THEN Replay(e, SubSeq(recs, Len(pre) + 1, Len(recs)))
+             ELSE No(e)
     [] OTHER -> No(q)
 
 TraceInit == Init /\ l = 1
